@@ -161,22 +161,54 @@ structure NetObs (K : Type) where
   kind : ObsKind
   value : K
 
+/-- a cluster: its observations in list order and its covariance matrix (`dim`, and the element
+    `(r, s)`, 0-based, as a function; symmetric; the elements outside the band are 0) -/
+structure NetCluster (K : Type) where
+  obs : List (NetObs K)
+  dim : Nat
+  cov : Nat → Nat → K
+
 structure Net (K : Type) where
   cs : CS
   leftHandedAngles : Bool
   /-- `removed_inconsistency_` -/
   removed : Bool
   points : List (NetPoint K)
-  obs : List (NetObs K)
+  clusters : List (NetCluster K)
 
 variable {K : Type} [Scalar K]
 
-/-- `change_y_signs_for_inconsistent_system_`: `y ↦ -y` for every point with xy, the value of
-    every `Y` and `Ydiff` observation negated; nothing else (in particular no covariance) -/
+/-- `Y` and `Ydiff` are the mirrored components -/
+def NetObs.mirrored (o : NetObs K) : Bool := o.kind = .y || o.kind = .ydiff
+
+/-- `mirrored[r]` of the code for the 0-based position `r` (positions past the list: `false`
+    never arise, `N = min(dim, #obs)`) -/
+def mirroredAt (obs : List (NetObs K)) (r : Nat) : Bool :=
+  match obs[r]? with
+  | some o => o.mirrored
+  | none => false
+
+/-- the covariance loop: `if (mirrored[r] != mirrored[s]) C(r,s) = -C(r,s)` for `r < s` inside
+    the band and `r, s ≤ N = min(dim, #obs)`; `(r,s)` and `(s,r)` are one stored number, elements
+    outside the band are 0 and stay 0 -/
+def flipCov (obs : List (NetObs K)) (dim : Nat) (C : Nat → Nat → K) : Nat → Nat → K :=
+  fun r s =>
+    if r < dim && s < dim && r < obs.length && s < obs.length && mirroredAt obs r != mirroredAt obs s
+    then -(C r s) else C r s
+
+/-- one cluster of `change_y_signs_for_inconsistent_system_` -/
+def flipCluster (c : NetCluster K) : NetCluster K :=
+  { obs := c.obs.map fun o => if o.mirrored then { o with value := -o.value } else o
+    dim := c.dim
+    cov := flipCov c.obs c.dim c.cov }
+
+/-- `change_y_signs_for_inconsistent_system_`: `y ↦ -y` for every point with xy; in every cluster
+    the value of every `Y` and `Ydiff` observation is negated and every covariance between a
+    mirrored and a not mirrored component changes sign (fix c7fddb0) -/
 def changeYSigns (n : Net K) : Net K :=
   { n with
     points := n.points.map fun p => if p.hasXY then { p with y := -p.y } else p
-    obs := n.obs.map fun o => if o.kind = .y || o.kind = .ydiff then { o with value := -o.value } else o }
+    clusters := n.clusters.map flipCluster }
 
 /-- `remove_inconsistency` -/
 def removeInconsistency (n : Net K) : Net K :=
